@@ -434,6 +434,7 @@ func (x *Explorer) accessField(st *State, at ssa.Instruction, base ssa.Value, id
 	ev := &Event{Kind: EvAccess, Instr: at, Struct: n, Field: s.Field(idx), Write: write, Tags: x.tagsOf(st, base), BaseNil: st.factOf(base).Nil}
 	if sto, ok := at.(*ssa.Store); ok && write {
 		ev.VTags = x.tagsOf(st, sto.Val)
+		ev.VNil = st.factOf(sto.Val).Nil
 	}
 	x.L.Event(x, st, ev)
 }
